@@ -66,9 +66,23 @@ func digest(b []byte) string {
 
 // buildFile writes a document with value dictionaries in a cycle, chains of
 // references, filtered streams and an object stream.
-func buildFile(r *rand.Rand) (data []byte, nvals int, chains [][]int, streams []int, bodies map[int][]byte, excl int) {
+// encModes are the (version, encrypted) combinations of the files: the
+// per-object key derivation and the decrypting readers are shared by all
+// goroutines that read one encrypted file.
+var encModes = []struct {
+	v   pdf.Version
+	enc bool
+}{{pdf.V1_7, false}, {pdf.V1_3, true} /* RC4-40 */, {pdf.V1_4, true} /* RC4-128 */, {pdf.V1_6, true} /* AES-128 */, {pdf.V2_0, true} /* AES-256 */}
+
+const userPassword = "c18-user"
+
+func buildFile(r *rand.Rand, mode int) (data []byte, nvals int, chains [][]int, streams []int, bodies map[int][]byte, excl int) {
 	buf := &bytes.Buffer{}
-	w, err := pdf.NewWriter(buf, pdf.V1_7, nil)
+	var opt *pdf.WriterOptions
+	if encModes[mode].enc {
+		opt = &pdf.WriterOptions{UserPassword: userPassword, OwnerPassword: "c18-owner", UserPermissions: pdf.PermAll}
+	}
+	w, err := pdf.NewWriter(buf, encModes[mode].v, opt)
 	if err != nil {
 		panic(err)
 	}
@@ -199,7 +213,7 @@ func (w *world) dec() func(pdf.Cursor, pdf.Object, bool) (*node, error) {
 }
 
 func open(data []byte) *world {
-	r, err := pdf.NewReader(bytes.NewReader(data), int64(len(data)), nil)
+	r, err := pdf.NewReader(bytes.NewReader(data), int64(len(data)), &pdf.ReaderOptions{Password: userPassword})
 	must(err)
 	cur := pdf.NewCursor(r)
 	return &world{r: r, cur: cur, x: pdf.VerifExtractor(cur), ids: map[any]int{}, runs: map[int]int{}, failOn: map[int]bool{}}
@@ -225,7 +239,7 @@ func (w *world) do(o op) (ok bool, id int, dig string) {
 			pdf.Format(&b, 0, obj)
 		}
 		return true, 0, digest(b.Bytes())
-	case "DecodeStream":
+	case "DecodeStream", "DecodeStreamCloseTwice":
 		obj, err := w.r.Get(ref, true)
 		if err != nil {
 			return false, 0, ""
@@ -237,6 +251,11 @@ func (w *world) do(o op) (ok bool, id int, dig string) {
 		rd, err := pdf.DecodeStream(w.r, nil, s)
 		if err != nil {
 			return false, 0, ""
+		}
+		if o.Op == "DecodeStreamCloseTwice" {
+			// "defer Close" plus an explicit Close: the second one must not
+			// hand pooled decoder state back a second time
+			defer rd.Close()
 		}
 		data, err := io.ReadAll(rd)
 		rd.Close()
@@ -289,7 +308,8 @@ func main() {
 	enc := json.NewEncoder(os.Stdout)
 	for round := 0; round < *rounds; round++ {
 		r := rand.New(rand.NewSource(*seed*1000003 + int64(round)))
-		data, nvals, chains, streams, bodies, excl := buildFile(r)
+		mode := []int{0, 0, 1, 2, 3, 4, 1, 4}[r.Intn(8)]
+		data, nvals, chains, streams, bodies, excl := buildFile(r, mode)
 		w := open(data)
 		// references: values are 2..; pick the universe from the file itself
 		var valRefs, chainRefs []int
@@ -316,6 +336,9 @@ func main() {
 					o = op{"Get", all[r.Intn(len(all))]}
 				case 2, 3:
 					o = op{"DecodeStream", streams[r.Intn(len(streams))]}
+					if r.Intn(3) == 0 {
+						o.Op = "DecodeStreamCloseTwice"
+					}
 				case 4, 5, 6:
 					all := append(append([]int{}, valRefs...), chainRefs...)
 					o = op{"Decode", all[r.Intn(len(all))]}
@@ -356,6 +379,10 @@ func main() {
 		}
 		// ground truth for streams comes from what was written
 		for _, s := range streams {
+			if t := solo[op{"DecodeStreamCloseTwice", s}][1]; t != "" && t != digest(bodies[s]) {
+				fmt.Fprintln(os.Stderr, "c18free: solo DecodeStream (closed twice) differs from written body")
+				os.Exit(3)
+			}
 			if solo[op{"DecodeStream", s}][1] != "" && solo[op{"DecodeStream", s}][1] != digest(bodies[s]) {
 				fmt.Fprintln(os.Stderr, "c18free: solo DecodeStream differs from written body")
 				os.Exit(3)
@@ -388,7 +415,7 @@ func main() {
 			<-start
 			rr := rand.New(rand.NewSource(*seed + int64(round)))
 			for k := 0; k < 3; k++ {
-				d2, _, _, st2, b2, _ := buildFile(rr)
+				d2, _, _, st2, b2, _ := buildFile(rr, rr.Intn(len(encModes)))
 				w2 := open(d2)
 				for _, s := range st2 {
 					ok, _, dig := w2.do(op{"DecodeStream", s})
